@@ -1026,6 +1026,9 @@ class n0dict(n0dict_):
                     else:
                         if isinstance(cur_node_index, str):
                             nxt_parent_node = cur_parent_node[n0eval(cur_node_index)]
+                            # FOUND of an index step reports the path of the list, without the index:
+                            # put the index back, or the next '..' resolves the list instead of this element
+                            cur_found_xpath_str = f"{cur_found_xpath_str}[{cur_node_index}]"
                         else:
                             raise TypeError(f"If index is in '{cur_node_name_index}', then ({type(cur_node_index)})'{cur_node_index}' must be str")
                 else:
